@@ -45,7 +45,7 @@ INFO = {
              '(allow / silent / delayed) x <= 12 steps from {search (server, FileSearch, distributed, legacy carrier), '
              'shares request, directory request (exact / through the parent alias / case variant), queue or transfer '
              'request (exact, case, doubled / mixed / trailing separator, parent alias, other alias, "..", unknown), '
-             'friend add/remove, block flags, update mode/users, add (+scan) / remove directory, rescan, new phrase '
+             'friend add/remove, block flags (by assignment or in place), update mode/users, add (+scan) / remove directory, rescan (optionally after deleting a file), new phrase '
              'list, user abort, user pause} with gaps {0, 50 ms, 0.3, 1.2, 3, 9 s}; non-trivial = some judged '
              'observation or settle evaluation involved a (user, file) pair that is not entitled under at least one '
              'configuration of the run; distinct = signature over (modes, user classes, per step: kind, asker class, '
@@ -150,66 +150,108 @@ def generate(rng, index, tier):
     if not any(e['mode'] != 'everyone' for e in shared) and rng.random() < 0.8:
         rng.choice(shared)['mode'] = rng.choice(('friends', 'users'))
     excluded = rng.sample(PHRASES, rng.choice([0, 1, 1, 2, 3]))
-    live_dirs = [list(e['dir']) for e in shared]
+    # approximate bookkeeping, only used to bias the draw towards requests that are granted first and hit by a
+    # change later (run() keeps the authoritative state)
+    g_dirs = {tuple(e['dir']): [e['mode'], list(e['users'])] for e in shared}
+    g_friends = set(friends)
+    g_blocked = {u: list(f) for u, f in blocked.items()}
+    holders = []          # users that were (probably) granted an upload
     steps = []
     nsteps = rng.randint(4, 12)
     ticket = [100 + rng.randrange(1000)]
     force_gap = [None]
 
+    def g_owner(comps):
+        best = None
+        for d in g_dirs:
+            if tuple(comps[:len(d)]) == d and len(comps) > len(d) and (best is None or len(d) > len(best)):
+                best = d
+        return best
+
+    def g_entitled(user, comps):
+        d = g_owner(comps)
+        if d is None or 'uploads' in g_blocked.get(user, []):
+            return False
+        mode, users = g_dirs[d]
+        return mode == 'everyone' or (mode == 'friends' and user in g_friends) or (mode == 'users' and user in users)
+
     def file_in_play():
-        inside = [f for f in files if any(f['path'][:len(d)] == d for d in live_dirs)]
+        inside = [f for f in files if g_owner(f['path']) is not None]
         pool = inside if inside and rng.random() < 0.85 else files
         return list(rng.choice(pool)['path'])
+
+    def pick_user():
+        return rng.choice(holders) if holders and rng.random() < 0.6 else rng.choice(USERS)
 
     while len(steps) < nsteps:
         r = rng.random()
         gap = rng.choice(GAPS) if force_gap[0] is None else force_gap[0]
         force_gap[0] = None
         user = rng.choice(USERS)
-        if r < 0.26:
-            step = {'op': 'queue', 'user': user, 'file': file_in_play(), 'variant': rng.choice(VARIANTS),
-                    'via': rng.choice(('queue', 'queue', 'request'))}
-        elif r < 0.42:
+        if r < 0.26 or (len(steps) < 2 and r < 0.6):
+            granted = [(u, f['path']) for u in USERS for f in files if g_entitled(u, f['path'])]
+            if granted and rng.random() < 0.6:
+                user, comps = rng.choice(granted)
+                step = {'op': 'queue', 'user': user, 'file': list(comps),
+                        'variant': 'exact' if rng.random() < 0.85 else rng.choice(VARIANTS),
+                        'via': rng.choice(('queue', 'queue', 'request'))}
+                if step['variant'] == 'exact':
+                    holders.append(user)
+            else:
+                step = {'op': 'queue', 'user': user, 'file': file_in_play(), 'variant': rng.choice(VARIANTS),
+                        'via': rng.choice(('queue', 'queue', 'request'))}
+        elif r < 0.40:
             ticket[0] += 1 + rng.randrange(5)
             step = {'op': 'search', 'user': user, 'carrier': rng.choice(CARRIERS), 'query': rng.choice(QUERIES),
                     'ticket': ticket[0]}
-        elif r < 0.49:
+        elif r < 0.46:
             step = {'op': 'shares', 'user': user}
-        elif r < 0.59:
+        elif r < 0.54:
             d = list(rng.choice(cands)) if rng.random() < 0.7 else file_in_play()[:-1]
             step = {'op': 'dir', 'user': user, 'dir': d, 'form': rng.choice(DIR_FORMS)}
-        elif r < 0.67:
-            step = {'op': 'friend', 'user': user, 'value': rng.random() < 0.5}
-        elif r < 0.77:
-            step = {'op': 'block', 'user': user,
-                    'flags': [] if rng.random() < 0.35 else ([f for f in FLAGS if rng.random() < 0.5] or ['uploads'])}
-        elif r < 0.83:
-            if not live_dirs:
+        elif r < 0.62:
+            user = pick_user()
+            value = user not in g_friends if rng.random() < 0.8 else rng.random() < 0.5
+            (g_friends.add if value else g_friends.discard)(user)
+            step = {'op': 'friend', 'user': user, 'value': value}
+        elif r < 0.73:
+            user = pick_user()
+            if g_blocked.get(user) and rng.random() < 0.6:
+                flags = []
+            else:
+                flags = [f for f in FLAGS if rng.random() < (0.75 if f == 'uploads' else 0.4)] or ['uploads']
+            g_blocked[user] = flags
+            step = {'op': 'block', 'user': user, 'flags': flags}
+        elif r < 0.80:
+            if not g_dirs:
                 continue
-            step = {'op': 'update', 'dir': list(rng.choice(live_dirs)), 'mode': rng.choice(MODES),
-                    'users': _draw_users(rng, named)}
-        elif r < 0.87:
-            free = [d for d in cands if d not in live_dirs]
+            d = rng.choice(sorted(g_dirs))
+            step = {'op': 'update', 'dir': list(d), 'mode': rng.choice(MODES), 'users': _draw_users(rng, named)}
+            g_dirs[d] = [step['mode'], list(step['users'])]
+        elif r < 0.84:
+            free = [d for d in cands if tuple(d) not in g_dirs]
             if not free:
                 continue
             d = rng.choice(free)
-            live_dirs.append(list(d))
             step = {'op': 'add', 'dir': list(d), 'mode': rng.choice(MODES), 'users': _draw_users(rng, named),
                     'scan': rng.random() < 0.7}
-        elif r < 0.91:
-            if not live_dirs:
+            g_dirs[tuple(d)] = [step['mode'], list(step['users'])]
+        elif r < 0.88:
+            if not g_dirs:
                 continue
-            d = rng.choice(live_dirs)
-            live_dirs.remove(d)
+            d = rng.choice(sorted(g_dirs))
+            del g_dirs[d]
             step = {'op': 'remove', 'dir': list(d)}
-        elif r < 0.93:
+        elif r < 0.895:
             step = {'op': 'rescan'}
-        elif r < 0.95:
+            if rng.random() < 0.5:
+                step['delete'] = file_in_play()
+        elif r < 0.92:
             step = {'op': 'phrases', 'list': rng.sample(PHRASES, rng.choice([0, 1, 2]))}
-        elif r < 0.99:
-            step = {'op': 'abort', 'user': user}
+        elif r < 0.97:
+            step = {'op': 'abort', 'user': pick_user()}
         else:
-            step = {'op': 'pause', 'user': user}
+            step = {'op': 'pause', 'user': pick_user()}
         step['gap'] = gap
         steps.append(step)
         if step['op'] in CHANGE_OPS and rng.random() < 0.3:
@@ -222,7 +264,7 @@ def generate(rng, index, tier):
         'seed': rng.getrandbits(32), 'net': net, 'exec': {'delay_ms': rng.choice([[0, 0], [0, 2], [0, 2], [1, 20]])},
         'classes': classes, 'friends': friends, 'blocked': blocked, 'files': files, 'shared': shared,
         'excluded': excluded, 'slots': rng.choice([0, 0, 1, 2]), 'speed_kbps': rng.choice([0, 8, 8, 30]),
-        'dl': dl, 'parent': rng.random() < 0.8, 'steps': steps,
+        'dl': dl, 'parent': rng.random() < 0.8, 'inplace': rng.random() < 0.3, 'steps': steps,
     }
 
 
@@ -295,11 +337,12 @@ def corpus(tier):
         ({'op': 'update', 'dir': ['pub'], 'mode': 'friends', 'users': []}, {'op': 'update', 'dir': ['pub'], 'mode': 'everyone', 'users': []}),
         ({'op': 'remove', 'dir': ['pub']}, {'op': 'add', 'dir': ['pub'], 'mode': 'everyone', 'users': [], 'scan': True}),
         ({'op': 'remove', 'dir': ['priv']}, {'op': 'add', 'dir': ['priv'], 'mode': 'friends', 'users': [], 'scan': False}),
+        ({'op': 'rescan', 'delete': ['pub', 'song one.mp3']}, {'op': 'rescan', 'delete': ['grp', 'group song.mp3']}),
     )
     for slots, speed, size in ((0, 0, 2000), (1, 8, 60000), (2, 8, 120000)):
         for first, second in pairs:
             steps = reqs + [dict(first, gap=1.2), dict(second, gap=9.0), q('u1', 'pub/song one.mp3', gap=9.0)]
-            plan = _plan(three, steps, slots=slots, speed_kbps=speed)
+            plan = _plan(three, steps, slots=slots, speed_kbps=speed, inplace=slots == 1)
             for f in plan['files']:
                 f['size'] = size
             out.append(plan)
@@ -329,6 +372,12 @@ def corpus(tier):
         out.append(_plan(three, [{'op': 'block', 'user': 'u1', 'flags': [], 'gap': 3.0}, q('u1', 'pub/song one.mp3', gap=gap),
                                  {'op': 'block', 'user': 'u1', 'flags': ['uploads'], 'gap': gap}], slots=0,
                          blocked={'u1': ['uploads']}, classes={'u0': 'friend', 'u1': 'blocked', 'u2': 'named'}))
+    for plan in list(out[-6:]):
+        slow = copy.deepcopy(plan)
+        slow.update(slots=1, speed_kbps=8)
+        for f in slow['files']:
+            f['size'] = 120000
+        out.append(slow)
     # 8. requests racing a change (same instant, 50 ms)
     for gap in (0.0, 0.05):
         out.append(_plan(three, [search('u1', 'server', 'secret'), {'op': 'friend', 'user': 'u1', 'value': True, 'gap': gap},
@@ -355,6 +404,8 @@ def simplify(plan):
         yield dict(plan, exec={'delay_ms': [0, 0]})
     if plan.get('speed_kbps'):
         yield dict(plan, speed_kbps=0)
+    if plan.get('inplace'):
+        yield dict(plan, inplace=False)
     if plan.get('slots'):
         yield dict(plan, slots=0)
     if plan.get('parent') and not any(s.get('carrier') in ('dist', 'legacy') for s in plan.get('steps', [])):
@@ -385,6 +436,10 @@ def simplify(plan):
             yield variant(via='queue')
         if step.get('form') not in (None, 'exact'):
             yield variant(form='exact')
+        if step.get('delete'):
+            cand = copy.deepcopy(plan)
+            del cand['steps'][i]['delete']
+            yield cand
 
 
 # ----------------------------------------------------------------------------- run
@@ -561,9 +616,20 @@ def _run(world: World, plan):
             tr = event.transfer
             uploads.append({'transfer': tr, 'user': tr.username, 'path': tr.remote_path, 't': loop.time(),
                             'abort_call': None})
+            tr.state_listeners.append(listener)
             world.trace('upload_added', tr.username, tr.remote_path)
         alice.recorder.events.clear()
     alice.recorder.hooks.append(on_event)
+
+    class Listener:
+        async def on_transfer_state_changed(self, transfer, old, new):
+            world.trace('state', transfer.username, old.name, new.name, transfer.abort_reason)
+            if old.name == 'ABORTED':
+                world.probe('left_ABORTED_for_' + new.name)
+            elif new.name == 'ABORTED':
+                world.probe('aborted_from_' + old.name + '_' + str(transfer.abort_reason).replace(' ', '_'))
+    listener = Listener()
+    world.keep_alive.append(listener)
 
     def requested(rec):
         call = rec['abort_call']
@@ -574,7 +640,33 @@ def _run(world: World, plan):
         return call.outcome() == 'returned'
 
     # ------------------------------------------------------------------ settle clauses
+    def span_class(user, target, permitted, now=None):
+        """Length class of the last interval of constant (friends, blocked) lists that held a configuration
+        under which the upload was permitted (or, ``permitted=False``, not permitted): the settings are polled
+        once a second, so a shorter interval may never be noticed; directory changes are announced by events."""
+        now = loop.time() if now is None else now
+        spans = []          # [start, end, any permitted, any not permitted, key]
+        for (t, cfg) in timeline.entries:
+            if t > now:
+                break
+            key = (cfg['friends'], tuple(sorted(cfg['blocked'].items())))
+            ok = E.may_upload(cfg, user, target)
+            if not spans or spans[-1][4] != key:
+                if spans:
+                    spans[-1][1] = t
+                spans.append([t, now, False, False, key])
+            spans[-1][2 if ok else 3] = True
+        for start, end, any_ok, any_not, _ in reversed(spans):
+            if (any_ok if permitted else any_not):
+                return 'under_1s' if end - start < 1.0 else 'longer'
+        return 'never'
+
+    def permitted_for(user, target, now=None):
+        return span_class(user, target, True, now)
+
     def evaluate(kind):
+        if kind == 'final' and chg['kind'] is not None:
+            kind = chg['kind']
         cfg = timeline.current
         for rec in uploads:
             tr = rec['transfer']
@@ -606,7 +698,7 @@ def _run(world: World, plan):
                         world.violate('C08.requested_kept', state=st, change=kind)
                     else:
                         world.violate('C08.settle_abort', what='not_aborted', state=st, expected=sorted(required),
-                                      change=kind)
+                                      change=kind, permitted_for=permitted_for(user, target))
                 elif reason not in allowed:
                     if E.REQUESTED in required:
                         world.violate('C08.requested_kept', state=st, reason=reason, change=kind)
@@ -619,7 +711,8 @@ def _run(world: World, plan):
                 if reason in allowed:
                     world.probe('settled_aborted_path_not_current')
                 else:
-                    world.violate('C08.settle_requeue', reason=reason, change=kind)
+                    world.violate('C08.settle_requeue', reason=reason, change=kind,
+                                  forbidden_for=span_class(user, target, False))
             else:
                 world.probe('settled_unfinished_' + st)
 
@@ -714,6 +807,8 @@ def _run(world: World, plan):
                 head, tail = name.split('\\', 1)
                 name = head + '\\' + tail.swapcase()
             rec['name'] = name
+            if any(E.locked(timeline.current, user, f) for f in files if os.path.dirname(f) == d_abs):
+                nt['locked'] = True
             message = M.PeerDirectoryContentsRequest.Request(xp._next_ticket(), name)
             sig_steps.append(('dir', cls(user), form, index.shared.get(dir_owner(d_abs), {}).get('mode')))
         else:
@@ -762,6 +857,8 @@ def _run(world: World, plan):
             outer = outer_of(owner) if owner in index.shared else None
             if outer is not None:
                 path = '@@' + alias(outer) + '\\' + _bs(os.path.relpath(f_abs, outer))
+            else:
+                variant = 'exact'
         elif variant == 'other_alias':
             base = others[0] if others else owner
             path = '@@' + alias(base) + '\\' + _bs(os.path.relpath(f_abs, owner)) + ('' if others else '.x')
@@ -810,7 +907,10 @@ def _run(world: World, plan):
             before = set(fr)
             (fr.add if step.get('value') else fr.discard)(user)
             if fr != before:
-                settings.users.friends = fr
+                if plan.get('inplace'):
+                    (settings.users.friends.add if step.get('value') else settings.users.friends.discard)(user)
+                else:
+                    settings.users.friends = fr
                 state['friends'] = set(fr)
                 push()
                 mark_change('friend')
@@ -824,7 +924,12 @@ def _run(world: World, plan):
             else:
                 bl.pop(user, None)
             if value != before:
-                settings.users.blocked = bl
+                if not plan.get('inplace'):
+                    settings.users.blocked = bl
+                elif value:
+                    settings.users.blocked[user] = BlockingFlag(value)
+                else:
+                    del settings.users.blocked[user]
                 if value:
                     state['blocked'][user] = value
                 else:
@@ -879,9 +984,15 @@ def _run(world: World, plan):
                 mark_change('remove')
                 sig_steps.append(('remove', relation))
         elif op == 'rescan':
+            gone = P(step['delete']) if step.get('delete') else None
+            deleted = False
+            if gone is not None and gone in files and os.path.isfile(gone):
+                os.unlink(gone)
+                deleted = True
+                world.disk.fired['file_deleted'] += 1
             await do_scan('rescan')
             mark_change('rescan')
-            sig_steps.append(('rescan',))
+            sig_steps.append(('rescan', deleted))
         elif op == 'phrases':
             server.send_to('alice', M.ExcludedSearchPhrases.Response(list(step.get('list', []))))
             sig_steps.append(('phrases', tuple(sorted(E.case_class(p) for p in step.get('list', [])))))
@@ -1000,10 +1111,6 @@ def _run(world: World, plan):
                 if nlocked:
                     nt['locked'] = True
                     world.probe('locked_directories_sent')
-            else:
-                d_file = [f for f in files if _bs(os.path.dirname(canonical(f))) == _bs(req.get('name', ''))]
-                if any(E.locked(timeline.current, user, f) for f in d_file) or not nfiles:
-                    nt['locked'] = nt['locked'] or bool(d_file)
             sig_obs.append((kind, cls(user), nfiles > 0, nlocked > 0))
             world.trace('obs_listing', kind, user, nfiles, nlocked)
         elif isinstance(msg, M.PeerTransferRequest.Request) and msg.direction == 1:
@@ -1050,7 +1157,8 @@ def _run(world: World, plan):
             served += len(w['raw'])
             cfgs = timeline.in_force(w['t'] - SETTLE, w['t'])
             if not any(E.may_upload(c, peer, target) for c in cfgs):
-                world.violate('C08.bytes_served', why=why(cfgs, peer, target), mode=E.mode_of(cfgs[-1], target))
+                world.violate('C08.bytes_served', why=why(cfgs, peer, target), mode=E.mode_of(cfgs[-1], target),
+                              permitted_for=permitted_for(peer, target, w['t']))
                 break
         if served:
             world.probe('file_bytes_served')
